@@ -316,7 +316,24 @@ class Run(object):
                     self.slots[target].snap = snap
                     self._refresh_edges(target, api + "[in-place]")
                     self.log.add("target", target, snap.meta, arr_digest(snap.dense))
-        # store new results (identity rule)
+        # identity rule: a returned object that IS a live object is that object, not a new result.  That is legitimate
+        # only where handing back an argument is part of the contract: the receiver of an in-place / overwrite call,
+        # and the caller's initial value heading a returned trajectory.  Anything else documented to return a new
+        # object must not return an operand (or any other live object): later in-place calls on "the result" would
+        # silently be calls on the operand.
+        allowed = set()
+        if target is not None:
+            allowed.add(target)
+        if spec.get("returns_initial") and "initial_value" in roles:
+            allowed.add(roles["initial_value"])
+        for t in results:
+            for i in self.live():
+                if self.slots[i].tt is t and i not in allowed:
+                    role = sorted(r for r, j in flat_roles.items() if j == i)
+                    if role:
+                        self._viol("returns-operand(%s,%s)" % (api, "+".join(role)), "identity", {"slot": i})
+                    self._viol("returns-live-object(%s)" % api, "identity", {"slot": i, "provenance": self.slots[i].prov})
+        # store new results
         dests = list(rec.get("dest", ()))
         for t in results:
             if any(s is not None and s.tt is t for s in self.slots):
@@ -396,6 +413,8 @@ def api_name(rec):
         return "TT." + str(a.get("what"))
     if name == "concatenate_list":
         return "TT.concatenate"
+    if name == "reconstruct":
+        return "TT.__init__"
     if name in ("add", "mul", "matmul"):
         return {"add": "TT.__sub__" if a.get("sub") else "TT.__add__", "mul": "TT.__rmul__" if a.get("right") else "TT.__mul__",
                 "matmul": "TT.dot" if a.get("dot") else "TT.__matmul__"}[name]
@@ -408,11 +427,11 @@ def api_name(rec):
 OPS = {}
 
 
-def op(name, roles=(), inplace=None, group="algebra", weight=1.0, consumes=False):
+def op(name, roles=(), inplace=None, group="algebra", weight=1.0, consumes=False, returns_initial=False):
     def deco(fn_pair):
         choose, execute = fn_pair()
         OPS[name] = {"name": name, "roles": roles, "inplace": inplace, "group": group, "weight": weight,
-                     "choose": choose, "exec": execute, "consumes": consumes}
+                     "choose": choose, "exec": execute, "consumes": consumes, "returns_initial": returns_initial}
         return fn_pair
     return deco
 
@@ -724,6 +743,41 @@ def _copy():
     return choose, execute
 
 
+@op("reconstruct", roles=("self",))
+def _reconstruct():
+    def choose(ctx):
+        a = ctx.pick(lambda m: closed(m) and int(np.prod(m[1])) * int(np.prod(m[2])) <= 4096)
+        if a is None:
+            return None
+        r = ctx.rnd
+        args = {"how": r.choice(("array", "cores", "cores_shared"))}
+        c = r.random()
+        if c < 0.3:
+            args["max_rank"] = r.randint(1, 3)
+        elif c < 0.5:
+            args["threshold"] = r.choice((1e-12, 1e-3))
+        if r.random() < 0.2:
+            args["progress"] = True
+        return {"op": "reconstruct", "in": {"self": a}, "dest": ctx.dest(1), "args": args}
+
+    def execute(run, rec, A, g):
+        a = rec["args"]
+        t = A["self"]
+        _need(t.ranks[0] == 1 and t.ranks[-1] == 1)
+        kw = {"threshold": a.get("threshold", 0), "max_rank": _mr(a.get("max_rank"))}
+        if a["how"] == "array":
+            return run.TT(t.full(), progress=bool(a.get("progress")), **kw)
+        if a["how"] == "cores":
+            return run.TT([c.copy() for c in t.cores], **kw)
+        # TT(list) keeps the caller's list and arrays by documented design (out of scope, DESIGN 3.6); handing it a fresh
+        # list of the SAME arrays is only legitimate for a harness if it then never looks at the operand again -- so the
+        # harness does what a user would: passes copies unless no truncation (=no in-place sweep) is requested
+        if kw["threshold"] == 0 and kw["max_rank"] == np.inf:
+            return run.TT([c.copy() for c in t.cores])
+        return run.TT([c.copy() for c in t.cores], **kw)
+    return choose, execute
+
+
 @op("read", roles=("self",), weight=1.5)
 def _read():
     def choose(ctx):
@@ -918,6 +972,8 @@ def _sweep_args(ctx, m, which):
         a["max_rank"] = r.randint(1, 3)
     elif c < 0.35:
         a["threshold"] = r.choice((1e-12, 1e-6, 0.1))
+    if which == "ortho_left" and r.random() < 0.15:
+        a["progress"] = True
     return a
 
 
@@ -937,6 +993,8 @@ def _sweep(name):
             for k in ("start_index", "end_index", "threshold"):
                 if a.get(k) is not None:
                     kw[k] = a[k]
+            if name == "ortho_left" and a.get("progress"):
+                kw["progress"] = True
             if a.get("max_rank") is not None:
                 kw["max_rank"] = a["max_rank"]
             d = t.order
@@ -1057,7 +1115,7 @@ def _steps(r):
     return [round(r.uniform(0.01, 0.2), 3) for _ in range(r.randint(1, 3))]
 
 
-@op("ode_onestep", roles=("operator", "initial_value", "initial_guess", "previous_value", "op_hod"), group="ode", weight=3.0)
+@op("ode_onestep", roles=("operator", "initial_value", "initial_guess", "previous_value", "op_hod"), group="ode", weight=3.0, returns_initial=True)
 def _ode_onestep():
     def choose(ctx):
         t = _op_vec_vec(ctx)
@@ -1147,7 +1205,7 @@ def _ode_errors():
     return choose, execute
 
 
-@op("ode_tdvp", roles=("operator", "initial_value"), group="ode", weight=2.0)
+@op("ode_tdvp", roles=("operator", "initial_value"), group="ode", weight=2.0, returns_initial=True)
 def _ode_tdvp():
     def choose(ctx):
         t = _op_vec_vec(ctx)
@@ -1178,7 +1236,7 @@ def _ode_tdvp():
     return choose, execute
 
 
-@op("ode_splitting", roles=("initial_value",), group="ode", weight=1.5)
+@op("ode_splitting", roles=("initial_value",), group="ode", weight=1.5, returns_initial=True)
 def _ode_splitting():
     def choose(ctx):
         a = ctx.pick(lambda m: is_vec(m) and closed(m) and m[0] >= 2 and len(set(m[1])) == 1 and max(m[3]) <= 6 and
